@@ -41,7 +41,7 @@ for pv in (False, True):
         nm = f"Buffer(pipe_valid={pv},pipe_ready={pr})"
         add_identity(nm, "quick", (lambda pv=pv, pr=pr, cap=cap: stream.Buffer(L(bits_for_ids(max(cap, 1))), pv, pr)), max(cap, 1))
 for n in (1, 2, 3):
-    add_identity(f"Delay(n={n})", "quick" if n < 3 else "thorough", (lambda n=n: stream.Delay(L(bits_for_ids(n), 1), n)), n,
+    add_identity(f"Delay(n={n})", "quick", (lambda n=n: stream.Delay(L(bits_for_ids(n), 1), n)), n,
                  maxpkt=2)
 for depth in (0, 1, 2, 3, 4):
     for buffered in ((False, True) if depth >= 2 else (False,)):
@@ -54,7 +54,7 @@ for buffered in (False, True):
     def mk_async(buffered=buffered):
         f = stream.AsyncFIFO(L(4, 0), 4, buffered)
         return ClockDomainsRenamer({"write": "sys", "read": "sys"})(f)
-    add_identity(f"AsyncFIFO(depth=4,buffered={buffered})@1clk", "quick" if not buffered else "thorough", mk_async, 4 + 2*int(buffered) + 1,
+    add_identity(f"AsyncFIFO(depth=4,buffered={buffered})@1clk", "quick", mk_async, 4 + 2*int(buffered) + 1,
                  maxpkt=2)
 for buffered in (False, True):
     add_identity(f"ClockDomainCrossing(sys->sys,buffered={buffered})", "quick",
@@ -65,7 +65,7 @@ for ratio in (2, 3, 4):
     for rev in (False, True):
         for vtc in (False, True):
             w = 2 if ratio < 4 else 1
-            tier = "quick" if (ratio < 4 and not (rev and vtc)) else "thorough"
+            tier = "quick"
             # up: tokens of w bits -> words; every w-bit value as id
             nm = f"Converter(up x{ratio},reverse={rev},vtc={vtc})"
             def mk_up(nm=nm, ratio=ratio, rev=rev, vtc=vtc, w=w):
@@ -87,12 +87,12 @@ for ratio in (2, 3, 4):
     def mk_dnf(nm=nm, ratio=ratio):
         return StreamHarness(nm, lambda: stream.Converter(ratio, 1), lambda H: Down(ratio, 1), mode="free",
                              alphabet=list(range(2**ratio)), M=2**ratio, maxpkt=1)
-    reg(nm, "quick" if ratio < 4 else "thorough", mk_dnf)
+    reg(nm, "quick", mk_dnf)
     nm = f"Converter(up x{ratio})/free"
     def mk_upf(nm=nm, ratio=ratio):
         return StreamHarness(nm, lambda: stream.Converter(1, ratio), lambda H: Up(ratio, 1, param=None), mode="free",
                              alphabet=[0, 1], M=2, maxpkt=ratio)
-    reg(nm, "quick" if ratio < 4 else "thorough", mk_upf)
+    reg(nm, "quick", mk_upf)
 reg("Converter(identity)", "quick", lambda: StreamHarness("Converter(identity)", lambda: stream.Converter(2, 2), ident(1), M=4))
 
 
@@ -130,7 +130,7 @@ for ratio in (2, 3):
         narrow = [("a", 1), ("b", 2)]
         wide = [("a", 1*ratio), ("b", 2*ratio)]
         place, pick = stride_place(narrow, ratio)
-        tier = "quick" if ratio == 2 else "thorough"
+        tier = "quick"
         nm = f"StrideConverter(up x{ratio},reverse={rev},params)"
         def mk_su(nm=nm, ratio=ratio, rev=rev, narrow=narrow, wide=wide, place=place):
             return StreamHarness(nm, lambda: stream.StrideConverter(stream.EndpointDescription(narrow, [("p", 2)]),
@@ -160,7 +160,7 @@ for (i_dw, o_dw, tier) in ((2, 3, "quick"), (3, 2, "quick"), (2, 4, "quick"), (4
 # --- Pack / Unpack -----------------------------------------------------------------------------------------
 for n in (2, 3):
     for rev in (False, True):
-        tier = "quick" if n == 2 else "thorough"
+        tier = "quick"
         nm = f"Pack(n={n},reverse={rev},params)"
         def mk_p(nm=nm, n=n, rev=rev):
             return StreamHarness(nm, lambda: stream.Pack(stream.EndpointDescription([("data", 2)], [("p", 2)]), n, rev),
@@ -230,17 +230,17 @@ reg("BufferizeEndpoints(Converter(up x2))", "quick", mk_bufferize)
 
 # --- purely combinational routing elements: Multiplexer, Demultiplexer, Gate, Cast --------------------------------------
 LD = [("data", 4)]
-for n in (2, 3):
+for n in (2, 3, 4, 5):
     nm = f"Multiplexer(n={n})"
     def mk_mux(nm=nm, n=n):
-        nsel = 2 if n == 2 else 4
+        nsel = 2 if n == 2 else (4 if n <= 4 else 8)
         return MultiStreamHarness(nm, lambda: stream.Multiplexer(LD, n), [f"sink{i}" for i in range(n)], ["source"],
                                   CombRouteOracle(lambda cc, n=n: (cc[0], 0) if cc[0] < n else None, lambda i, cc: 0),
-                                  ctrl=[("sel", range(nsel))], liveness=False, maxpkt=2, idbits=1 if n == 3 else 2)
-    reg(nm, "quick", mk_mux)
+                                  ctrl=[("sel", range(nsel))], liveness=False, maxpkt=2 if n <= 3 else 1, idbits=1 if n >= 3 else 2)
+    reg(nm, "quick" if n <= 4 else "thorough", mk_mux)        # n = 5: 4.2 M transitions (five free producers), thorough
     nm = f"Demultiplexer(n={n})"
     def mk_demux(nm=nm, n=n):
-        nsel = 2 if n == 2 else 4
+        nsel = 2 if n == 2 else (4 if n <= 4 else 8)
         return MultiStreamHarness(nm, lambda: stream.Demultiplexer(LD, n), ["sink"], [f"source{i}" for i in range(n)],
                                   CombRouteOracle(lambda cc, n=n: (0, cc[0]) if cc[0] < n else None, lambda i, cc: 0),
                                   ctrl=[("sel", range(nsel))], liveness=False, maxpkt=2)
